@@ -72,6 +72,9 @@ class Codec:
 
     def tokenize(self, s=None, flags=None):
         rng = self.rng
+        if s is None and rng.random() < 0.03:
+            run = ''.join(rng.choice(['\x1b[1m', '\x1b[31m', '\x1b[2J', '\x1b[m', '\x1b[38;5;9m', '\x1b[', '\x1b[4;3m']) for _ in range(rng.randint(2, 4)))
+            s = 'a' * rng.randint(255, 262) + run + rng.choice(['', 'b', 'b' + run])
         if s is None:
             r = rng.random()
             s = self.tok_string() if r < 0.35 else (self.csi_string() if r < 0.8 else (
@@ -182,9 +185,13 @@ class Codec:
     def pgs(self):
         rng = self.rng
         codes = self.code_list()
+        if rng.random() < 0.05:
+            # more tokens than any per-sequence cap a terminal may have: what comes last still counts
+            codes = [rng.choice([1, 3, 4, 9, 22, 23, 24, 29, 31, 42, 53]) for _ in range(rng.randint(28, 40))] + \
+                    rng.choice([[0], [39, 49], [38, 5, 208], [0, 4], [48, 2, 1, 2, 3], [22, 23, 24, 29, 55, 39, 49], self.code_list()])
         add_err = rng.random() < 0.4
         junk = rng.random() < 0.12
-        form = rng.choice(['str', 'ints', 'strs'])
+        form = rng.choice(['str', 'ints', 'strs', 'ints', 'intlike'])
         items = list(codes)
         if junk:
             for _ in range(rng.randint(1, 2)):
@@ -194,11 +201,14 @@ class Codec:
             if rng.random() < 0.2: arg = arg.replace(';', '; ')
             inp = P.line('pgs', [0], P.e_bool(add_err), P.e_str(arg))
         else:
-            arg = [(i if (form == 'ints' and isinstance(i, int)) else str(i)) for i in items]
+            arg = [(i if (form in ('ints', 'intlike') and isinstance(i, int)) else str(i)) for i in items]
             enc = [len(arg)]
             for i in arg:
                 enc += ([0, i] if isinstance(i, int) else [1] + P.e_str(i))
             inp = P.line('pgs', [1], P.e_bool(add_err), enc)
+            if form == 'intlike':
+                # the same codes as a bool / an int subclass: they stand for their integer value
+                arg = [(bool(i) if i in (0, 1) and rng.random() < 0.7 else P.IntSub(i)) if (isinstance(i, int) and rng.random() < 0.5) else i for i in arg]
         before = list(arg) if isinstance(arg, list) else arg
         pg, std = self.mod.parse_graphic_sequence, self.mod.settings_to_dict
         out = call(lambda: pg(arg, add_err))
